@@ -12,7 +12,7 @@
    1.4 query) and the older U+00A7-separated format (read by the 1.4 and the
    beta 1.8 query), for every status text in UTF-16BE, surrogate pairs included. *)
 From GD Require Import Base.Prelude Model.Strings Model.StrOps Model.Buffer Model.Net Model.Valve Model.Gamespy Model.View Model.Minecraft.
-From GD Require Import Spec.Rand Spec.MinecraftSpec Proofs.MinecraftProofs Proofs.MinecraftRoundtrip Proofs.LegacyRoundtrip.
+From GD Require Import Spec.Rand Spec.MinecraftSpec Proofs.MinecraftProofs Proofs.MinecraftRoundtrip Proofs.LegacyRoundtrip Proofs.MinecraftQuery.
 
 Theorem c03_auto_java_first : forall json port t rs n r n1,
   query_java json port t rs n = (Ok r, n1) -> query_auto json port t rs n = (Ok r, n1).
@@ -90,6 +90,51 @@ Theorem c03_legacy_old_roundtrip : forall s, wf_legacy s = true -> forallb (fun 
   legacy_parse V1_4 (kick (old_text s)) = Ok (old_expected V1_4 s) /\ legacy_parse VB1_8 (kick (old_text s)) = Ok (old_expected VB1_8 s).
 Proof. exact old_roundtrip. Qed.
 Print Assumptions c03_legacy_old_roundtrip.
+(* ---- the whole queries ----
+   each variant's query (socket, request, the server's reply, decoding) returns exactly the status; the JSON reader is an
+   oracle: the hypothesis says what it returns for the text the server sent *)
+Theorem c03_java_query : forall json port s u t sn cur tr,
+  wf_java_status s = true -> utf8_valid (java_json s) = true -> lenN (java_json s) + 16 < 2147483648 ->
+  json (java_json s) = Some (Some (status_value s)) ->
+  exists n', query_java json port None None (mknet u (Stream (java_stream s) false :: t) [] sn cur tr) = (Ok (java_expected s), n').
+Proof. exact java_query_roundtrip. Qed.
+Print Assumptions c03_java_query.
+Theorem c03_bedrock_query : forall port s u t sn cur tr, wf_bedrock s -> (length (bedrock_pong s) <= 1024)%nat ->
+  exists n', query_bedrock port None (mknet (Datagram (bedrock_pong s) :: u) t [] sn cur tr) = (Ok (bedrock_expected s), n').
+Proof. exact bedrock_query_roundtrip. Qed.
+Print Assumptions c03_bedrock_query.
+Theorem c03_legacy_query : forall g port data r u t sn cur tr, legacy_parse g data = Ok r ->
+  exists n', query_legacy_specific g port None (mknet u (Stream data false :: t) [] sn cur tr) = (Ok r, n').
+Proof. exact legacy_query_roundtrip. Qed.
+Print Assumptions c03_legacy_query.
+
+(* the auto-detecting query against a server that speaks any subset of the five variants (an unspoken variant refuses
+   the connection, answers garbage or closes at once; Bedrock stays silent): the first variant spoken, in the order
+   Java, Bedrock, legacy 1.6, 1.4, beta 1.8, determines the result and its label; AutoQuery if none is spoken *)
+Theorem c03_wf_world_means : forall json w,
+  wf_world json w <->
+  (match w_java w with
+   | Some s => wf_java_status s = true /\ utf8_valid (java_json s) = true /\ lenN (java_json s) + 16 < 2147483648
+               /\ json (java_json s) = Some (Some (status_value s))
+   | None => True
+   end
+   /\ match w_bedrock w with Some s => wf_bedrock s /\ (length (bedrock_pong s) <= 1024)%nat | None => True end
+   /\ match w_v16 w with Some s => wf_legacy s = true /\ lenN (utf16be (v16_text s)) / 2 < 65536 | None => True end
+   /\ match w_v14 w with Some s => wf_legacy s = true /\ forallb (fun c => negb (c =? 167)) (ls_motd s) = true /\ lenN (utf16be (old_text s)) / 2 < 65536 | None => True end
+   /\ match w_vb18 w with Some s => wf_legacy s = true /\ forallb (fun c => negb (c =? 167)) (ls_motd s) = true /\ lenN (utf16be (old_text s)) / 2 < 65536 | None => True end).
+Proof. intros; reflexivity. Qed.
+Print Assumptions c03_wf_world_means.
+Theorem c03_auto_query_on_every_world : forall json port w, wf_world json w ->
+  fst (query_auto json port None None (net_init (world_udp w) (world_tcp w) [])) = auto_expected w.
+Proof. exact auto_world_roundtrip. Qed.
+Print Assumptions c03_auto_query_on_every_world.
+(* a test: a world that speaks only the two oldest variants meets the hypotheses *)
+Example c03_ex_world :
+  let l := mk_ls 47 (str "1.4.7") [77; 8364; 128512] 3 20 in
+  let w := mk_world None None None (Some l) (Some l) 1 in
+  wf_world (fun _ => Some None) w /\ auto_expected w = Ok (old_expected V1_4 l).
+Proof. split; [|reflexivity]. unfold wf_world. cbn. repeat split; vm_compute; reflexivity. Qed.
+
 Example c03_wf_legacy_nonvacuous :
   existsb (fun seed => let s := fst (gen_legacy true seed) in
              wf_legacy s && forallb (fun c => negb (c =? 167)) (ls_motd s) && existsb (fun c => 65535 <? c) (ls_motd s ++ ls_version s))
